@@ -1,4 +1,6 @@
-(** C12 - Mesh.grade is idempotent on the state a successful grade leaves behind, for every block
+(** C12 - the un-reset Mesh.grade (the code before fixes/C12-4.diff, [grade_no_reset]) is idempotent on the state a
+    successful grade leaves behind, and the repaired Mesh.grade ([grade], with the reset) does not depend on the state
+    it starts from (end of the file).  For every block
     list (any number of blocks, any sharing of vertices), every choice of user chops (axes without
     chops take theirs from neighbours) and every iteration order of coincident wires / neighbour axes.
 
@@ -227,9 +229,9 @@ Section Regrade.
   Lemma seq_lt i : In i (seq 0 n) -> i < n.
   Proof. intro H. apply in_seq in H. lia. Qed.
 
-  Theorem first_run_stable s0 s : grade bs o_coin o_nbrs true s0 = GOk s -> Stable s.
+  Theorem first_run_stable s0 s : grade_no_reset bs o_coin o_nbrs true s0 = GOk s -> Stable s.
   Proof.
-    unfold grade. destruct (negb (oracle_ok bs o_coin o_nbrs)); [discriminate|].
+    unfold grade_no_reset. destruct (negb (oracle_ok bs o_coin o_nbrs)); [discriminate|].
     destruct (propagate (fuel0 bs) (grade_blocks2 s0) (seq 0 n)) as [s1| |] eqn:E; try discriminate.
     destruct (consistent bs s1) eqn:C; [|discriminate]. intro H. inversion H. subst s1.
     destruct (propagate_P Pc copy_axis_pc (fuel0 bs) (grade_blocks2 s0) (seq 0 n) s seq_lt
@@ -368,11 +370,11 @@ Section Regrade.
     Qed.
 
     Theorem regrade_fix_inner : oracle_ok bs o_coin o_nbrs = true ->
-      exists t', grade bs o_coin o_nbrs true t = GOk t' /\ eqin t' t /\ ach t' = ach t.
+      exists t', grade_no_reset bs o_coin o_nbrs true t = GOk t' /\ eqin t' t /\ ach t' = ach t.
     Proof using St Hco.
       intro K. destruct grade_blocks2_fix as [E A].
       exists (grade_blocks2 t). split; [|split; [exact E | exact A]].
-      unfold grade. rewrite K. simpl.
+      unfold grade_no_reset. rewrite K. simpl.
       rewrite (propagate_defined (grade_blocks2 t) E (seq 0 n) (fuel0 bs) seq_lt)
         by (rewrite seq_length; unfold fuel0; lia).
       rewrite (consistent_eqin _ E), (S_cons _ St). reflexivity.
@@ -396,19 +398,33 @@ Section Main.
   Variable o_nbrs : axis -> list axis.
 
   Theorem regrade_fix t : Stable bs t -> oracle_ok bs o_coin o_nbrs = true ->
-    exists t', grade bs o_coin o_nbrs true t = GOk t' /\ eqin bs t' t /\ ach t' = ach t.
+    exists t', grade_no_reset bs o_coin o_nbrs true t = GOk t' /\ eqin bs t' t /\ ach t' = ach t.
   Proof.
     intros St K. destruct (oracle_ok_incl bs o_coin o_nbrs K) as (Hco & _ & _).
     apply regrade_fix_inner; assumption.
   Qed.
 
-  Lemma grade_ok_oracle fx s0 s : grade bs o_coin o_nbrs fx s0 = GOk s -> oracle_ok bs o_coin o_nbrs = true.
-  Proof. unfold grade. destruct (oracle_ok bs o_coin o_nbrs); [reflexivity | discriminate]. Qed.
+  Lemma grade_ok_oracle fx s0 s : grade_no_reset bs o_coin o_nbrs fx s0 = GOk s -> oracle_ok bs o_coin o_nbrs = true.
+  Proof. unfold grade_no_reset. destruct (oracle_ok bs o_coin o_nbrs); [reflexivity | discriminate]. Qed.
 
   (** Mesh.grade twice: the second run succeeds and changes no wire of the mesh and no axis *)
-  Theorem grade_twice s0 s : grade bs o_coin o_nbrs true s0 = GOk s ->
-    exists s', grade bs o_coin o_nbrs true s = GOk s' /\ eqin bs s' s /\ ach s' = ach s.
+  Theorem grade_twice s0 s : grade_no_reset bs o_coin o_nbrs true s0 = GOk s ->
+    exists s', grade_no_reset bs o_coin o_nbrs true s = GOk s' /\ eqin bs s' s /\ ach s' = ach s.
   Proof.
     intro H. apply regrade_fix; [eapply first_run_stable; exact H | eapply grade_ok_oracle; exact H].
   Qed.
+
+  (** ** the repaired grade: the reset makes the result a function of the block list, the user's chops and
+      the iteration orders only *)
+  Theorem grade_state_independent s1 s2 : grade bs o_coin o_nbrs s1 = grade bs o_coin o_nbrs s2.
+  Proof. reflexivity. Qed.
+
+  Corollary grade_is_first_run s : grade bs o_coin o_nbrs s = grade_no_reset bs o_coin o_nbrs true (init bs).
+  Proof. reflexivity. Qed.
+
+  (** so the pre-repair second run and the repaired one agree on the wires of the mesh wherever the first run
+      succeeded: the defect was invisible for count-only chops *)
+  Corollary reset_changes_nothing s0 s : grade_no_reset bs o_coin o_nbrs true s0 = GOk s ->
+    exists s', grade_no_reset bs o_coin o_nbrs true s = GOk s' /\ eqin bs s' s.
+  Proof. intro H. destruct (grade_twice s0 s H) as (s' & G & E & _). exists s'. auto. Qed.
 End Main.
